@@ -10,9 +10,9 @@ mod verif_c15 {
     use crate::*;
 
     // pure, argument-sensitive stand-ins (relational / label harnesses only)
-    fn stub_powf(x: f32, y: f32) -> f32 { x * y + 1.0 }
-    fn stub_expf(x: f32) -> f32 { x + x + 1.0 }
-    fn stub_cbrtf(x: f32) -> f32 { x * 0.5 + 0.25 }
+    fn stub_powf(x: f32, y: f32) -> f32 { f32::from_bits(x.to_bits() ^ y.to_bits().rotate_left(7) ^ 0x5555_5555) }
+    fn stub_expf(x: f32) -> f32 { f32::from_bits(x.to_bits().rotate_left(3) ^ 0x0F0F_0F0F) }
+    fn stub_cbrtf(x: f32) -> f32 { f32::from_bits(x.to_bits().rotate_left(5) ^ 0x3333_3333) }
     /// unpadded stand-in for Plane::new (64-byte aligned rows cost 64 allocation-loop iterations per plane and conversion;
     /// plane padding is irrelevant to the label==content clause, layout independence is C11)
     fn stub_plane_new<T: Pixel>(width: usize, height: usize, xdec: usize, ydec: usize, _xpad: usize, _ypad: usize) -> Plane<T> {
